@@ -152,7 +152,7 @@ def check_case(ctx: Ctx, c: Dict[str, Any], k: int = 0) -> None:
     for src_name, src in (("other", g2), ("own", g)):
         src_world = src.index_to_world(src.coords(normalize=False).to(torch.float32)).to(torch.float64)
         img = (src_world @ a + b).float().unsqueeze(0).unsqueeze(0)
-        for tgt_name, tgt in (("own", g), ("other", g2.resize(tuple(n + 1 for n in g2.size())))):
+        for tgt_name, tgt in (("own", g), ("own-resized", g.resize(tuple(n + 3 for n in g.size()))), ("other", g2.resize(tuple(n + 1 for n in g2.size())))):
             it = guarded("ImageTransformer", lambda: ImageTransformer(t, target=tgt, source=src, padding="border"), target=tgt_name, source=src_name)
             if it is None:
                 continue
